@@ -124,7 +124,7 @@ PROPS = {
         "technique": "kind propagation with family-polymorphic helper rule",
     },
     "C19": {
-        "rules": [r_fmt.run_c19],
+        "rules": [r_fmt.run_c19, r_feat.csvdefault],
         "explanation": "FMT: Example::write emits `surface TAB feature` lines and an `EOS` line on "
                        "every path using complete writes; the tokenizer CLI's MeCab mode emits "
                        "the same shape; Corpus::from_reader splits at the same TAB into exactly "
@@ -508,11 +508,12 @@ _ADDED2 = {
     "C07": "ACCUM (portable and AVX2 builds): accumulate_cost pairs keys1[i] with keys2[i] through plain zips (no skip/rev/take), starts at zero and only adds lookup results; the AVX2 build sums lanes 0..7 once each. SCORERCHK (AVX2) also requires base = bases[key1] gathered under key1 < bases_len, zero for masked-out lanes and the 4-byte gather scale. LANES as for C05. CSVROW as for C17 (cells of bigram.right/left lines). KIND over compile's main: the readers opened from --bigram-right-in / --bigram-left-in reach the builder parameters of their own side.",
     "C06": "KIND over map's main: the list read from *.lmap is the left mapping argument and *.rmap the right one.",
     "C13": "KIND over map's main as for C06 (the files reorder writes are consumed on their own side).",
-    "C14": "KIND over dictgen's main: writers created with the .left / .right suffixes reach write_bigram_details' parameters of their own side.",
+    "C14": "QUOTER also requires the input to advance by the consumed count nin and each write to be cut at the produced count nout. KIND over dictgen's main: writers created with the .left / .right suffixes reach write_bigram_details' parameters of their own side.",
     "C17": "CSVROW: parse_csv_row appends every decoded chunk (OutputFull included), emits the accumulated cell on every Field/InputEmpty/End outcome - the empty last cell too - and advances the input by the consumed count.",
     "C18": "CSVROW as for C17 (template column numbers). FIRSTMATCH-* (the C17 rules): templates expand the *rewritten* features, so a rewriter that applies a later rule changes every expansion.",
+    "C19": "CSVDEFAULT: the lexicon parser keeps csv-core's default dialect (a changed terminator leaves a CR at the end of every feature, which the corpus reader then strips - tokens no longer round-trip). ERRPROP also covers discarding function items handed to adaptors (`map_while(Result::ok)`) and flattened io::Result iterators.",
     "C20": "CSVROW as for C17 (the id lines of left-id.def / right-id.def).",
-    "C16": "CSVROW as for C17 (bigram.left/right lines). KIND over dictgen's and compile's main: the .left/.right files are written from, and --bigram-left-in/--bigram-right-in read into, the parameters of their own side.",
+    "C16": "QUOTER (cells of bigram.left/right): every byte written comes from the csv-core writer's buffer cut at the produced count, the input advances by the consumed count, finish precedes Ok. CSVROW as for C17 (bigram.left/right lines). KIND over dictgen's and compile's main: the .left/.right files are written from, and --bigram-left-in/--bigram-right-in read into, the parameters of their own side.",
 }
 for _p, _t in _ADDED2.items():
     PROPS[_p]["explanation"] += " " + _t
